@@ -670,6 +670,44 @@ def rebuild(t: T, new) -> T:
     raise AssertionError(op)
 
 
+def expand(t: T, _memo=None, limit=4000) -> T:
+    """Distribute products over sums (polynomial expansion of the top-level arithmetic structure;
+    ite / app / comparison sub-terms are atoms).  Used to recognise identities such as
+    a*(x + c) = a*x + a*c syntactically."""
+    if _memo is None:
+        _memo = {}
+    r = _memo.get(t)
+    if r is not None:
+        return r
+    if t.op == "add":
+        c, coefs = t.val
+        r = add(const(c), *[scale(expand(m, _memo, limit), k) for m, k in zip(t.args, coefs)])
+    elif t.op == "mul":
+        # product of expanded factors; only non-negative exponents of sums are distributed
+        polys = [[(Fraction(1), ONE)]]
+        for f, e in zip(t.args, t.val):
+            fe = expand(f, _memo, limit)
+            if fe.op == "add" and e > 0 and not (fe.val[0] == 0 and len(fe.args) == 1):
+                c0, coefs = fe.val
+                terms_ = ([(c0, ONE)] if c0 != 0 else []) + list(zip(coefs, fe.args))
+                for _ in range(e):
+                    new = []
+                    for (k1, m1) in polys[0]:
+                        for (k2, m2) in terms_:
+                            new.append((k1 * k2, mul(m1, m2)))
+                    if len(new) > limit:
+                        _memo[t] = t
+                        return t
+                    polys[0] = new
+            else:
+                polys[0] = [(k1, mul(m1, powi(fe, e))) for (k1, m1) in polys[0]]
+        r = add(*[scale(m, k) for k, m in polys[0]])
+    else:
+        r = t
+    _memo[t] = r
+    return r
+
+
 def size(t: T) -> int:
     seen = set()
     stack = [t]
